@@ -70,8 +70,8 @@ Lemma replacement_helper_total ivar ovar comp q vars f :
 Proof.
   intros Hn Hg. unfold replacement_helper.
   match goal with |- exists r, (if ?c then _ else _) = _ => destruct c end; [|eauto].
-  destruct (vname ivar) as [|ch rest] eqn:En; [congruence|]. cbn [first_char].
-  destruct (choose_fresh_one_nonempty (variables (FQ q vars f)) (String ch EmptyString)) as [x [rest' ->]].
+  cbv zeta.   (* since fix F18 the non-empty-name premise is no longer needed: the variant falls back to "I" *)
+  destruct (choose_fresh_one_nonempty (variables (FQ q vars f)) (fresh_variant (vname ivar))) as [x [rest' ->]].
   destruct (subst_total f ovar (GInt (IVar x))) as [f' ->]; [unfold sort_ok; rewrite Hg; reflexivity|].
   eauto.
 Qed.
